@@ -526,6 +526,79 @@ theorem RepDead.take {h : Heap α Unit} {addrs : List Nat} {dead : List (Nat × 
   refine ⟨addrs.take m, rfl, hnd.sublist (List.take_sublist _ _), ?_⟩
   rw [List.map_take, List.map_take, hc]
 
+/-! ### round 3f: what `remove` / `discard` / `pop` need -/
+
+/-- consequences of the class invariant that `_cull`'s tie needs -/
+theorem InvC.idx_le {s : ISet α} (h : InvC s) : s.idx.length ≤ s.items.length := by
+  have h1 := h.perm.length_eq
+  rw [IMap.length_keys] at h1
+  rw [h1]
+  unfold live; exact List.length_filterMap_le _ _
+
+theorem takeWhile_all {β : Type} (p : β → Bool) : ∀ (R : List β), R.takeWhile p = R → ∀ y ∈ R, p y = true
+  | [], _, y, hy => by simp at hy
+  | z :: R, h, y, hy => by
+    by_cases hp : p z = true
+    · simp only [List.takeWhile_cons, hp, if_true, List.cons.injEq, true_and] at h
+      rcases List.mem_cons.1 hy with rfl | hy
+      · exact hp
+      · exact takeWhile_all p R h y hy
+    · simp [List.takeWhile_cons, hp] at h
+
+theorem trailingDead_lt (l : List (Option α)) (x : α) (hx : x ∈ live l) : trailingDead l < l.length := by
+  unfold trailingDead
+  rcases Nat.lt_or_ge (l.reverse.takeWhile isTomb).length l.length with h | h
+  · exact h
+  · exfalso
+    have hp : l.reverse.takeWhile isTomb <+: l.reverse := List.takeWhile_prefix _
+    have he : l.reverse.takeWhile isTomb = l.reverse := hp.eq_of_length_le (by simpa using h)
+    have hall : ∀ y ∈ l.reverse, isTomb y = true := by
+      intro y hy
+      exact takeWhile_all isTomb l.reverse he y hy
+    have := (mem_live l x).1 hx
+    have h2 := hall (some x) (by simpa using this)
+    simp [isTomb] at h2
+
+theorem InvC.trailing {s : ISet α} (h : InvC s) (hne : s.idx ≠ []) : trailingDead s.items < s.items.length := by
+  cases hi : s.idx with
+  | nil => exact absurd hi hne
+  | cons p m =>
+    have hk : p.1 ∈ IMap.keys s.idx := by rw [hi]; simp [IMap.keys]
+    exact trailingDead_lt s.items p.1 (h.perm.mem_iff.1 hk)
+
+theorem addDead_length_le (d : List (Nat × Nat)) (i : Nat) : (addDead d i).length ≤ d.length + 1 := by
+  unfold addDead
+  split
+  · simp_all
+  · simp only
+    split
+    · omega
+    · split
+      · simp
+      · split
+        · simp
+        · rw [List.length_insertIdx]; split <;> omega
+
+theorem pop?_castIdx (m : IMap α) (x : α) (hn : (IMap.keys m).Nodup) :
+    PyRt.Dict.pop? (castIdx m) x = match IMap.lookup m x with
+      | some n => .ok ((n : Int), castIdx (IMap.erase m x))
+      | none => .error PyExc.KeyError := by
+  unfold PyRt.Dict.pop?
+  rw [find_castIdx, erase_castIdx m x hn]
+  cases IMap.lookup m x <;> rfl
+
+theorem setIdx?_tomb (items : List (Option α)) (i : Nat) (hi : i < items.length) :
+    setIdx? (items.map ofItem) (i : Int) Val.sentinel = .ok ((items.map ofItem).set i Val.sentinel) := by
+  unfold setIdx? PyRt.normIdx
+  have h0 : ¬ ((i : Int) < 0) := by omega
+  simp only [h0, if_false, List.length_map]
+  rw [if_pos (by omega)]
+  simp
+
+theorem map_set_tomb (items : List (Option α)) (i : Nat) :
+    (items.set i none).map ofItem = (items.map ofItem).set i Val.sentinel := by simp [List.map_set]
+
+
 end RepSec
 
 end C11
